@@ -23,7 +23,9 @@ abbrev Counters := Field → Nat
 
 def Counters.zero : Counters := fun _ => 0
 
-def Counters.set (c : Counters) (f : Field) (v : Nat) : Counters := fun g => if g = f then v else c g
+/- `noinline`: the arguments of a call are evaluated before the call, so the stored value is computed once
+(inlined, the compiler may move the value expression under the `fun`, re-evaluating it on every look-up). -/
+@[noinline] def Counters.set (c : Counters) (f : Field) (v : Nat) : Counters := fun g => if g = f then v else c g
 
 /-- `sc.tc` (sessions without a username) or the collector of a named user -/
 inductive Target where
@@ -37,7 +39,7 @@ def target (username : String) : Target :=
 
 abbrev Store := Target → Counters
 
-def Store.upd (s : Store) (t : Target) (f : Field) (v : Nat) : Store :=
+@[noinline] def Store.upd (s : Store) (t : Target) (f : Field) (v : Nat) : Store :=
   fun t' => if t' = t then (s t').set f v else s t'
 
 structure Shared where
